@@ -44,6 +44,13 @@ def run_demos(patch_text, meta):
             p = subprocess.run(f"sh {f} 2>&1", shell=True, cwd=wt, env=e3, capture_output=True, text=True, timeout=1800)
             rc, out = p.returncode, p.stdout + p.stderr
             results[b] = {"rc": rc, "tail": out[-600:]}
+        elif b.endswith(".py") and b.startswith("demo"):
+            # python LSP clients: build the worktree's own debug server, pass its path
+            e3 = dict(env); e3.pop("CARGO_TARGET_DIR", None)
+            p = subprocess.run(f"cargo build -p abasic-lsp --offline 2>&1 | tail -2; python3 {f} target/debug/abasic-lsp 2>&1", shell=True, cwd=wt, env=e3, capture_output=True, text=True, timeout=1800)
+            out = p.stdout + p.stderr
+            rc = 0 if ("PASS" in out and "FAIL" not in out and p.returncode == 0) else 1
+            results[b] = {"rc": rc, "tail": out[-600:]}
     return results
 meta = {}
 if os.path.exists(os.path.join(md, "meta.json")):
